@@ -394,7 +394,7 @@ def m_np_power(it, fr, a, b):
     b = ops.to_frac(b)
     if not is_symbolic(a) and ops.to_frac(a) == 10:
         it.trusted_used.add('numpy.power(10,x)=pow10')
-        return ops.mk(ops.POW10(ops.z3real(b)), 'real')
+        return ops.mk(ops._uf(ops.POW10, ops.z3real(b)), 'real')
     if not is_symbolic(a) and a == 2 and not is_symbolic(b) and isinstance(b, int):
         return 2 ** b
     if not is_symbolic(a) and a == 2:
@@ -407,15 +407,15 @@ def m_np_mod(it, fr, a, b):
 
 
 def m_np_sqrt(it, fr, a):
-    return ops.mk(ops.SQRT(ops.z3real(a)), 'real')
+    return ops.mk(ops._uf(ops.SQRT, ops.z3real(a)), 'real')
 
 
 def m_np_exp(it, fr, a):
-    return ops.mk(ops.EXP(ops.z3real(a)), 'real')
+    return ops.mk(ops._uf(ops.EXP, ops.z3real(a)), 'real')
 
 
 def m_np_log(it, fr, a):
-    return ops.mk(ops.LN(ops.z3real(a)), 'real')
+    return ops.mk(ops._uf(ops.LN, ops.z3real(a)), 'real')
 
 
 def m_np_array(it, fr, a, **k):
@@ -424,9 +424,9 @@ def m_np_array(it, fr, a, **k):
 
 def m_math_log(it, fr, x, base=None):
     if base is None:
-        return ops.mk(ops.LN(ops.z3real(x)), 'real')
+        return ops.mk(ops._uf(ops.LN, ops.z3real(x)), 'real')
     it.trusted_used.add('math.log(x,b)=logb')
-    return ops.mk(ops.LOGB(ops.z3real(x), ops.z3real(base)), 'real')
+    return ops.mk(ops._uf(ops.LOGB, ops.z3real(x), ops.z3real(base)), 'real')
 
 
 def m_floor(it, fr, x):
